@@ -223,7 +223,7 @@ where
             let b = cbor::cbor_encode(&v).map_err(|e| format!("cbor_encode failed: {:#}", e))?;
             // deterministic encoding: the same logical value built again (fresh
             // hash maps, hence fresh hash seeds) must give identical bytes
-            for _ in 0..3 {
+            for _ in 0..10 {
                 let again = cbor::cbor_encode(&gen(&mut Rng::new(seed))).map_err(|e| format!("{:#}", e))?;
                 if again != b {
                     return Err(format!(
